@@ -365,7 +365,8 @@ Apply(h, o) ==
          LET s == StoreAll(h, o.vs, <<>>)
          IN {Res(Ok(Ref(Len(s[1]) + 1)), Append(s[1], Cell("L", s[2])))}
     [] o.op = "NewListOf" ->
-         LET s == Store1(h, o.v)
+         \* with count 0 the converted literal is never visible: it is not modelled
+         LET s == IF o.i = 0 THEN <<h, o.v>> ELSE Store1(h, o.v)
          IN {Res(Ok(Ref(Len(s[1]) + 1)), Append(s[1], Cell("L", [i \in 1..o.i |-> s[2]])))}
     [] o.op = "NewObject" ->
          IF Len(o.vs) % 2 = 1 \/ FirstBadPair(o.vs) # 0 THEN {Res(Panic, h)}
